@@ -88,6 +88,12 @@ func CountActions(acs []<-chan Action) (int, int, int, bool) {
 	for _, ac := range acs {
 		action, ok := <-ac
 		if !ok {
+			// One of the sources has ended. Drain the others, so that
+			// the goroutines feeding them are not left blocked.
+			for _, other := range acs {
+				go helper.Drain(other)
+			}
+
 			return 0, 0, 0, false
 		}
 
